@@ -401,3 +401,14 @@ mutant("C19-M10", "C19", "R19c", "transformer applied after validation", edits=[
 ])
 mutant("C19-M11", "C19", "R19e", "plot strings: eval before the walk", U, "evaluate_plot_string", "        fcn_ast = ast.parse(plot_string, mode=\"eval\")\n", "        fcn_ast = ast.parse(plot_string, mode=\"eval\")\n        if len(plot_string) < 10:\n            return eval(compile(fcn_ast, filename=\"<ast>\", mode=\"eval\"))\n")
 twin("C19-T2", "C19", "assert -> if ... raise for the '__' guard", FP, "parse_function", "    assert \"__\" not in fcn_str, \"Cannot use double underscores in functions\"\n", "    if \"__\" in fcn_str:\n        raise ValueError(\"Cannot use double underscores in functions\")\n")
+
+# =============================================================================================== C20
+PL = "atomica/plotting.py"
+CS = "atomica/cascade.py"
+mutant("C20-M3", "C20", "R20c", "Series.__init__ stores vals uncopied", PL, "Series.__init__", "self.vals = np.copy(vals)", "self.vals = vals")
+mutant("C20-M4", "C20", "R20c", "_programs_to_df masks the result's own array", RS, "_programs_to_df", "            programs_active = (result.model.program_instructions.start_year <= tvals)", "            result.model.t[result.model.t < result.model.program_instructions.start_year] = np.nan\n            programs_active = (result.model.program_instructions.start_year <= tvals)")
+mutant("C20-M5", "C20", "R20d", "get_cascade_vals builds PlotData before sanitize_cascade", CS, "get_cascade_vals", "    _, cascade_dict, pop_type = sanitize_cascade(result.framework, cascade)\n    pops = sanitize_pops(pops, result, pop_type)", "    d0 = PlotData(result, outputs=cascade, pops=pops)\n    _, cascade_dict, pop_type = sanitize_cascade(result.framework, cascade)\n    pops = sanitize_pops(pops, result, pop_type)")
+mutant("C20-M6", "C20", "R20a", "new sticky default in time_aggregate", PL, "PlotData.time_aggregate", "        for s in self.series:\n", "        for s in self.series:\n            if time_aggregation is None:\n                time_aggregation = \"integrate\" if s.units == \"\" else \"sum\"\n", accept_exit2=False)
+mutant("C20-M7", "C20", "R20d", "sanitize_cascade returns early for dict cascades without validating", CS, "sanitize_cascade", "        cascade_name = None\n        cascade_dict = cascade\n", "        return None, cascade, None\n")
+mutant("C20-M8", "C20", "R20c", "Result.get_variable caches on the model", RS, "Result.get_variable", "        if pops is not None:", "        self.model._last_query = name\n        if pops is not None:", accept_exit2=False)
+twin("C20-T2", "C20", "np.array(vals, copy=True)", PL, "Series.__init__", "self.vals = np.copy(vals)", "self.vals = np.array(vals, copy=True)")
